@@ -307,6 +307,9 @@ func runCase(rq *request) M {
 	if rq.Mode == "num" {
 		return runNumCase(rq)
 	}
+	if rq.Mode == "evalbytes" {
+		return runBytesCase(rq)
+	}
 	if rq.Mode == "compile" || rq.Mode == "denote" {
 		return runCompileCase(rq)
 	}
